@@ -182,6 +182,24 @@ def check(case):
     nok = node_ok_h
     iso_ab = rm.isomorphic(b, a, nok, edge_ok)
     iso_ba = rm.isomorphic(a, b, nok, edge_ok)
+    # two selected bond attributes, the second one constant: the verdicts and embeddings are those of the first alone
+    a2, b2 = a.copy(), b.copy()
+    for g in (a2, b2):
+        for u, v in g.edges:
+            g[u][v]["standard_order"] = 0.0
+    for eattrs in (["order", "standard_order"], ["standard_order", "order"]):
+        eng = GraphMatcherEngine(node_attrs=["element", "charge"], edge_attrs=eattrs, wl1_filter=False, max_mappings=None)
+        v1 = eng.isomorphic(a2, b2)
+        ncalls += 1
+        if v1 not in (iso_ab, iso_ba):
+            fails.append(Fail("two_bond_attributes", f"edge_attrs={eattrs}: isomorphic={v1}", f"{iso_ab} (as with 'order' alone; the other attribute is constant)", key_extra=",".join(eattrs)))
+        for pat, host in ((a2, b2), (b2, a2)):
+            res = eng.get_mappings(host, pat)
+            ncalls += 1
+            bad = [m for m in res if not valid_embedding(dict(m), pat, host, nok)]
+            if bad:
+                fails.append(Fail("two_bond_attributes", f"edge_attrs={eattrs}: embedding {bad[0]} does not preserve the bond orders", "valid pattern->host embeddings", key_extra=",".join(eattrs) + ",emb"))
+                break
     if kind == "v":
         g = gmor.graph_isomorphism(a, b, use_defaults=True)
         ncalls += 1
